@@ -23,7 +23,9 @@ pub mod util {
         raw: &mut Deserializer<R>,
     ) -> cbor_event::Result<Vec<u8>> {
         let len = raw.array()?;
-        assert!(len == Len::Len(2));
+        if len != Len::Len(2) {
+            return Err(cbor_event::Error::WrongLen(2, len, "address with crc32"));
+        }
 
         let tag = raw.tag()?;
         if tag != 24 {
